@@ -2,8 +2,16 @@
 use crate::stats::{Ctx, Report};
 
 pub mod c01;
+pub mod c02;
 pub mod c04;
 pub mod c05;
+pub mod c06;
+pub mod c10;
+pub mod c11;
+pub mod c11_decoders;
+pub mod c12;
+pub mod c12_parse;
+pub mod c13;
 
 pub struct Prop {
     pub id: &'static str,
@@ -15,8 +23,14 @@ pub struct Prop {
 pub fn all() -> Vec<Prop> {
     vec![
         Prop { id: "C01", run: c01::run, replay: c01::replay },
+        Prop { id: "C02", run: c02::run, replay: c02::replay },
         Prop { id: "C04", run: c04::run, replay: c04::replay },
         Prop { id: "C05", run: c05::run, replay: c05::replay },
+        Prop { id: "C06", run: c06::run, replay: c06::replay },
+        Prop { id: "C10", run: c10::run, replay: c10::replay },
+        Prop { id: "C11", run: c11::run, replay: c11::replay },
+        Prop { id: "C12", run: c12::run, replay: c12::replay },
+        Prop { id: "C13", run: c13::run, replay: c13::replay },
     ]
 }
 
